@@ -22,7 +22,7 @@ QUICK_S = 30
 THOROUGH_S = 420
 BATCH = 6
 RULE = ('one evaluation = one seeded run: 4-20 values drawn from the picklable domain (ints of any magnitude, floats incl. -0.0/inf/nan, '
-        'text over all code-point classes incl. CR, LF, NUL, U+0085, U+2028, astral and lone surrogates, bytes, None/bool, nested '
+        'text over all code-point classes incl. CR, LF, NUL, every str.splitlines separator, U+FEFF/U+FFFE (biased to the first and last position), combining and astral characters, uniformly random code points and lone surrogates, bytes, None/bool, nested '
         'containers, byte streams with seeded short reads) at lengths threshold-1/threshold/threshold+1 (and once per batch beyond the '
         '4 MiB stream chunk) x disk_min_file_size in {0,1,8,64,32768} x pickle protocol 0-5 x Disk/JSONDisk, each stored through one '
         'of set/add/[]=/push/Deque.append(left)/Deque[]=/Index[]=/Index.setdefault/set(read=True) and read back through every accessor '
@@ -38,14 +38,25 @@ LEVEL_TEXT = ('seeded exploration of values x thresholds x serializer settings x
               'compared by type and structure, failures must leave no trace.')
 LEVEL_NOTE = 'trusted: Python pickle/json/zlib, SQLite type affinity, tmpfs'
 
-TEXT_BITS = ['a', 'é', '\r', '\n', '\r\n', '\x00', '\x85', ' ', ' ', '\U0001F600', '￿', ' ', '"', '\\', '\x1a', '\t']
+TEXT_BITS = ['a', '\xe9', '\r', '\n', '\r\n', '\x00', '\x85', '\u2028', '\u2029', '\U0001F600', '\uffff', ' ', '"', '\\', '\x1a', '\t',
+             '\ufeff', '\ufffe', '\u200b', '\u0301', '\xa0', '\x7f', '\x0b', '\x0c', '\x1c', '\x1d', '\x1e', '\u0800', '\U0010ffff']
+# code points that a decoder, a text-mode file or a line splitter may treat specially when they come first or last
+EDGE_BITS = ['\ufeff', '\ufffe', '\n', '\r', '\x00', ' ', '\x1a', '\u2028', '\xef\xbb\xbf', '\xff\xfe']
 
 
 def gen_text(rng, n):
     out = []
     while len(out) < n:
-        out.append(rng.choice(TEXT_BITS))
-    return ''.join(out)[:n]
+        if rng.random() < 0.08:
+            cp = rng.randrange(0x110000)
+            out.append(chr(cp) if not 0xD800 <= cp <= 0xDFFF else 'a')
+        else:
+            out.append(rng.choice(TEXT_BITS))
+    text = ''.join(out)[:n]
+    if text and rng.random() < 0.3:
+        edge = rng.choice(EDGE_BITS)[:len(text)]
+        text = edge + text[len(edge):] if rng.random() < 0.7 else text[:len(text) - len(edge)] + edge
+    return text
 
 
 def gen_value(rng, mfs, json_ok):
